@@ -610,9 +610,38 @@ func c12SubMappingCases() []c12NCase {
 
 // ---------------------------------------------------------------------------
 
+// c12NoMatrixCases: `strategy:` without a `matrix:` key - fail-fast / max-parallel are still governed
+// by jobs.<job_id>.strategy - in ordinary and in reusable-workflow call jobs.
+func c12NoMatrixCases() []c12NCase {
+	var out []c12NCase
+	for _, jobKind := range []string{"ordinary job", "call job"} {
+		wrap := func(strategy string) string {
+			if jobKind == "call job" {
+				return "on: push\njobs:\n  call:\n    strategy:\n" + c12Indent(6, strategy) + "    uses: owner/repo/.github/workflows/w.yml@v1\n"
+			}
+			return "on: push\njobs:\n  build:\n    runs-on: ubuntu-latest\n    strategy:\n" + c12Indent(6, strategy) + "    steps:\n      - run: echo\n"
+		}
+		sfx := ""
+		if jobKind == "call job" {
+			sfx = " (call job)"
+		}
+		for _, sh := range []struct{ shape, ff, mp string }{
+			{"no matrix key; only this key", "fail-fast: @@\n", "max-parallel: @@\n"},
+			{"no matrix key; the other key literal, before", "max-parallel: 2\nfail-fast: @@\n", "fail-fast: false\nmax-parallel: @@\n"},
+			{"no matrix key; the other key literal, after", "fail-fast: @@\nmax-parallel: 2\n", "max-parallel: @@\nfail-fast: false\n"},
+			{"no matrix key; the other key given by an expression", "max-parallel: ${{ fromJSON('2') }}\nfail-fast: @@\n", "fail-fast: ${{ github.ref == 'x' }}\nmax-parallel: @@\n"},
+		} {
+			out = append(out, c12NCase{Shape: jobKind + "; " + sh.shape, Cl: &c12Class{Name: "jobs.<id>.strategy.fail-fast" + sfx, Key: c12StrategyKey, Kind: c12Bool, Src: wrap(sh.ff)}})
+			out = append(out, c12NCase{Shape: jobKind + "; " + sh.shape, Cl: &c12Class{Name: "jobs.<id>.strategy.max-parallel" + sfx, Key: c12StrategyKey, Kind: c12Any, Src: wrap(sh.mp)}})
+		}
+	}
+	return out
+}
+
 func c12NeighbourCases(base []*c12Class) []c12NCase {
 	var out []c12NCase
 	out = append(out, c12MatrixCases()...)
+	out = append(out, c12NoMatrixCases()...)
 	out = append(out, c12JobNeighbourCases(base)...)
 	out = append(out, c12CallJobCases()...)
 	out = append(out, c12StepCases()...)
